@@ -95,6 +95,42 @@ func checkC16(r *core.Run) {
 				}
 			}
 		}
+		// ... or through the record's own setter (keyed by record.Id inside): a call that receives the record and whose
+		// only write is one store.set under key IDBytes(<record>.Id)
+		if !okKey {
+			for _, b := range af.Blocks {
+				for _, ins := range b.Instrs {
+					c, ok := ins.(ssa.CallInstruction)
+					if !ok {
+						continue
+					}
+					h := c.Common().StaticCallee()
+					if h == nil || len(h.Blocks) == 0 {
+						continue
+					}
+					takesRecord := false
+					recIdx := -1
+					for i, a := range c.Common().Args {
+						if strings.HasPrefix(normT(res.Of(a).String()), "#2") {
+							takesRecord = true
+							recIdx = i
+						}
+					}
+					if !takesRecord {
+						continue
+					}
+					hres := r.Resolver(h)
+					for _, e := range r.Eff.Own[h] {
+						if e.Kind == "store.set" && e.KeyVal != nil {
+							kt := normT(hres.Of(e.KeyVal).String())
+							if strings.Contains(kt, fmt.Sprintf("IDBytes(#%d.Id)", recIdx)) {
+								okKey = true
+							}
+						}
+					}
+				}
+			}
+		}
 		for _, b := range af.Blocks {
 			for _, ins := range b.Instrs {
 				switch x := ins.(type) {
